@@ -23,6 +23,9 @@ def reset (s : PState α) : Out α := resetOut (obs s) 0
 /-- `done = jp.where(jp.abs(obs[1]) > 0.2, 1.0, 0.0)` -/
 def done (o : List α) : α := if (0.2 : α) < absv (idx o 1) then 1 else 0
 
+/-- the action sent to the physics: rescaled from `[-1, 1]` to `actuator.ctrl_range` -/
+def action (ctrlRange : List (α × α)) (act : List α) : List α := scaleAction act ctrlRange
+
 /-- `step` (the action only enters the physics): `reward = 1.0`, no metrics -/
 def step (s : PState α) : Out α := ⟨obs s, 1, done (obs s), []⟩
 
